@@ -516,3 +516,24 @@ Proof.
   intros H1 H2.
   exact (conj (run_amalgamate_sparse_decoded srcs nr ss n H1 H2) (run_amalgamate_dense_decoded srcs ss H1)).
 Qed.
+
+(* necessity of "permutation of ALL rows" in shuffle_rows_exact: a duplicate-free in-range
+   list that leaves rows out is accepted, and the result is not a CSR matrix (the
+   pointer array is padded with zeros, so it decreases) *)
+Theorem shuffle_rows_sublist_refuted :
+  exists m order out,
+    wf_csr m 4 3 /\ no_dup_minor m /\ NoDup order /\ Forall (fun r => r < 4) order /\
+    shuffle_rows m order = Ok out /\ ptr out = [0; 1; 0; 0; 5] /\ ~ mono (ptr out).
+Proof.
+  exists {| ptr := [0; 2; 2; 3; 5]; idx := [0; 2; 2; 0; 2]; dat := [5; 6; 7; 8; 9]%Z |}, [2; 0].
+  eexists. split; [|split; [|split; [|split; [|split; [vm_compute; reflexivity | split; [reflexivity|]]]]]].
+  - split; [|split; reflexivity]. split; [reflexivity|]. split; [reflexivity|]. split; [cbn; lia|].
+    repeat (apply Forall_cons; [lia|]). apply Forall_nil.
+  - intros j Hj. cbn [ptr length] in Hj.
+    assert (D : j = 0 \/ j = 1 \/ j = 2 \/ j = 3) by lia.
+    destruct D as [ -> | [ -> | [ -> | -> ] ] ]; vm_compute;
+      repeat (apply NoDup_cons; [cbn [In]; lia|]); apply NoDup_nil.
+  - repeat (apply NoDup_cons; [cbn [In]; lia|]). apply NoDup_nil.
+  - repeat (apply Forall_cons; [lia|]). apply Forall_nil.
+  - cbn. lia.
+Qed.
